@@ -353,7 +353,7 @@ impl<I: PrimInt, T> Lapper<I, T>
         if elems.is_empty() {
             return 0;
         }
-        if elems[0] > *key {
+        if elems[0] >= *key {
             return 0;
         }
         let mut high = elems.len();
